@@ -1298,6 +1298,11 @@ func SelectExpr(query *Query, current Map, expr *sqlparser.SelectExprs, opts ...
 							}
 							value = *x
 						}
+						// an awaited function that produces no column (SETVAR, SPIN, ...)
+						if _, ok := value.(Ommit); ok {
+							delete(data, name)
+							return nil
+						}
 
 						data[name] = value
 						return nil
